@@ -312,12 +312,19 @@ def extractRange (s0 : String) : String × String × String :=
     | none => (RN.trimSpace hd, "", obj)
     | some j => (RN.trimSpace (sTake hd j), RN.trimSpace (sDrop hd (j + 1)), obj)
 
+/-- processRange: exactly ONE surrounding pair of quotes — the delimiters of the attribute value — is removed -/
+def stripOwnQuotes (av : String) : String :=
+  match av.toList with
+  | q :: rest =>
+    if (q = '\'' || q = '"') && rest.getLast? = some q then String.ofList rest.dropLast else av
+  | [] => av
+
 /-- processRange up to the loop: one child scope per item -/
 def rangeItems (cx : Ctx) (a : CAttr) (sc : List Val) : Except Cls (List (List Val)) × List String :=
   match a.value with
   | none => (.error .attrValueExpected, [])
   | some av =>
-    let v := RN.trimSuffixS (RN.trimPrefixS (RN.trimSuffixS (RN.trimPrefixS av "'") "'") "\"") "\""
+    let v := stripOwnQuotes av
     let (idxName, itemName, objName) := extractRange v
     match EL.parseCode objName with
     | .reject => (.error .rangeObject, [])
